@@ -82,10 +82,23 @@ func genBatchModel(r *gen.R) *batchModel {
 		M := r.Range(1, 3)
 		ks := []int{r.Range(1, 3), r.Range(1, 3)}
 		pads := []int{r.Range(0, 1), r.Range(0, 1), r.Range(0, 1), r.Range(0, 1)}
-		strides := []int{r.Range(1, 2), r.Range(1, 2)}
+		strides := []int{r.Range(1, 3), r.Range(1, 3)}
 		w := p.addInit("K", p.smallWeights([]int{M, xv.Shape[1], ks[0], ks[1]}, 1))
 		at := ref.ConvAttrs{Pads: pads, Strides: strides}
-		node := mon.GNode{Op: "Conv", Inputs: []string{cur, w}, Attrs: []*mon.Attr{mon.AttrIntsI("pads", pads), mon.AttrIntsI("strides", strides)}}
+		node := mon.GNode{Op: "Conv", Inputs: []string{cur, w}, Attrs: []*mon.Attr{mon.AttrIntsI("strides", strides)}}
+		if r.Chance(0.45) { // paddings derived from the spatial extents instead of explicit ones
+			at.Pads, at.AutoPad = nil, r.PickStr("SAME_UPPER", "SAME_LOWER")
+			node.Attrs = append(node.Attrs, mon.AttrS("auto_pad", at.AutoPad))
+		} else {
+			node.Attrs = append(node.Attrs, mon.AttrIntsI("pads", pads))
+		}
+		if r.Chance(0.3) {
+			at.Dilations = []int{r.Range(1, 2), r.Range(1, 2)}
+			node.Attrs = append(node.Attrs, mon.AttrIntsI("dilations", at.Dilations))
+		}
+		if r.Chance(0.3) {
+			node.Attrs = append(node.Attrs, mon.AttrIntsI("kernel_shape", ks))
+		}
 		if r.Bool() {
 			node.Inputs = append(node.Inputs, p.addInit("cb", p.smallWeights([]int{M}, 1)))
 		}
